@@ -100,6 +100,12 @@ theorem fail_is_identity (db : DB) (op : Op) (e : Err) (hop : ∀ k w tx ht, op 
     | ok d => simp [commit] at hr
   cases op <;> simp only [step] at h ⊢ <;> first | exact hc _ h | simp at h | exact absurd rfl (hop _ _ _ _)
 
+/-- the spend of a confirmed batch (multi-sig witness, account output recreated) is exactly the pending-batch
+clause: the staged batch is completed if there is a loadable one, and nothing else is written -/
+theorem accountSpend_recreate (db : DB) (k : Key) (tx ht : Nat) (a : Acct) (hk : lookup k db.accounts = some a) :
+    step db (.accountSpend k .multiSigRecreate tx ht) = step db .spend := by
+  simp only [step, handleAccountSpend, hk]
+
 /-- `HandleAccountSpend` is NOT one transaction (pending-batch clause, then `UpdateAccount`): when it fails, the
 database is either untouched or exactly in the state after the completed pending-batch clause -/
 theorem accountSpend_fail (db : DB) (k : Key) (w : Witness) (tx ht : Nat) (e : Err)
@@ -117,6 +123,7 @@ theorem accountSpend_fail (db : DB) (k : Key) (w : Witness) (tx ht : Nat) (e : E
     cases w with
     | unknown => left; rfl
     | expiry => left; exact hc _ _ h
+    | multiSigRecreate => left; exact hc _ _ h
     | multiSig =>
       simp only [] at h ⊢
       cases hr : commit db (spendPendingClause db) with
@@ -365,6 +372,7 @@ theorem events_append_only (db : DB) (op : Op) (hop : ∀ n, op ≠ .deleteOrder
       cases w with
       | unknown => exact hid
       | expiry => exact ⟨[], by simp [hu db]⟩
+      | multiSigRecreate => exact ⟨[], by simpa using hs⟩
       | multiSig =>
         simp only []
         cases hr : commit db (spendPendingClause db) with
@@ -521,6 +529,25 @@ theorem C06_reconnect_never_applies (db : DB) (rpc : Rpc) (rm : Bool) :
   simp only [step]; rw [reconnect_db]
   repeat' split
   all_goals first | exact ⟨Or.inl rfl, rfl⟩ | exact ⟨Or.inr rfl, rfl⟩
+
+/-- **Every function that (re-)creates the stream to the auctioneer checks the pending batch before it
+(re-)subscribes accounts** – regenerated from `auctioneer/client.go`: the callers of `connectServerStream` are exactly
+`connectAndAuthenticate` (first connect) and `HandleServerShutdown` (stream error / shutdown notice). -/
+theorem facts_stream_creators_check :
+    streamCreators = [("HandleServerShutdown", "check-before-subscribe"),
+                      ("connectAndAuthenticate", "check-before-subscribe")] := by decide
+
+/-- a check answered "not finalised" keeps everything -/
+theorem reconnect_notFinalised_keeps (db : DB) (rm : Bool) : (reconnect (.rpcErr true) rm db).1 = db := by
+  rw [reconnect_db]; cases db.pendingSnap <;> rfl
+
+/-- **All reconnect paths apply the same decision**: first connect, stream error and shutdown notice have exactly
+the database effect of one `checkPendingBatch` with the auctioneer's final answer – so `C06_reconnect_keep_iff` /
+`C06_reconnect_never_applies` hold for each of them. -/
+theorem C06_reconnect_all_paths (p : Path) (rpc : Rpc) (rm : Bool) (db : DB) :
+    (reconnectVia p rpc rm db).1 = (step db (.reconnect rpc rm)).1 ∧
+    (reconnectVia p rpc rm db).2.getLast? = some (reconnect rpc rm db).2 := by
+  cases p <;> simp [reconnectVia, step, reconnect_notFinalised_keeps]
 
 /-- kept ⇔ not loadable ∨ not finalised ∨ same txid (∨ cleanup impossible); discarded otherwise -/
 theorem C06_reconnect_keep_iff (db : DB) (hc : Coh db) (st : Staged) (hs : staged db = some st)
